@@ -1,6 +1,6 @@
 """Contract for the semi-asynchronous per-device sweep (C06): scan with a changing carry, scatter, padding mask."""
 import z3
-from pyvc.contract import contract, Ctx, ScanSpec, REGISTRY
+from pyvc.contract import contract, Ctx, ScanSpec, REGISTRY, LoopSpec
 from pyvc.values import *
 from pyvc import reduce as R
 from pyvc.models import arrays as A
@@ -155,3 +155,119 @@ def ret_reorder(c):
 REG_I = [None]
 REGISTRY[f"{SA}._shuffle_states"].returns = ret_shuffle
 REGISTRY[f"{SA}._reorder_values"].returns = ret_reorder
+
+# ---------------- _update_values as a contract usable by callers; _iteration_step; solve (C06 top level, C08 for the semi-async solver)
+from contracts.vi_solve import span_of, maxdiff_of, Greedy, policy_of
+from pyvc.interp import FormatSpec
+def ctx_of_self(I, s, V):
+    bp = s.attrs["batch_processor"]; dims = tuple(bp.attrs[k] for k in ("n_devices", "n_batches", "batch_size", "n_pad"))
+    return Ctx(dims=dims, shuffle=s.attrs["config"].attrs["shuffle_states"], key0=s.attrs["key"], I=I, V=V, gamma=s.attrs["gamma"])
+def gs_result(cx):
+    """natural-order result of one sweep from cx.V: state i gets the backup from the carry of its device before its batch"""
+    D, B, bs, pad = cx.dims; perm, pos = sweep_fns(cx)
+    def at(idx):
+        i = toz3(idx[0]); k = pos(i); d, b, j = A.unravel(k, (D, B, bs))
+        return Bell(spec_carry_dev(cx, cx.V, d * B * bs, b, pos), cx.gamma, ST(i))
+    return SArr((N,), at)
+def ret_update(c):
+    I = REG_I[0]; return gs_result(ctx_of_self(I, c["self"], c["values"]))
+def eff_update(I, c):
+    s = c["self"]
+    if s.attrs["config"].attrs["shuffle_states"]:
+        I.note_write(s, "key"); s.attrs["key"] = I.rand["K1"](s.attrs["key"])
+def req_update(c, q):
+    s = c["self"]; P = s.attrs["problem"].attrs
+    return z3.And(CV.same_vecs(c["actions"], P["action_space"], q), CV.same_vecs(c["random_events"], P["random_event_space"], q),
+                  z3.BoolVal(c["batched_states"] is s.attrs["batched_states"]), toz3(c["values"].shape[0]) == N)
+contract(f"{SA}._update_values", scenarios=[("fixed.", setup_update(False)), ("shuffled.", setup_update(True))], returns=ret_update, effects=eff_update, requires=None, modifies={"key"},
+         ensures={"natural_order_gauss_seidel": post_update, "key_advanced_once_iff_shuffling": post_key,
+                  "CANARY_synchronous": lambda c, q: q.forall(0, N, lambda i: toz3(c.result.get((i,))) == Bell(c.V, c.gamma, ST(i)))})
+
+def setup_sa_step(shuffle, test):
+    def setup(I):
+        s, Pb, dims, gamma = mk_solver(I, "SemiAsyncValueIteration", "mdpax.solvers.semi_async_value_iteration")
+        I.call(I.getattr(s, "_setup_jax_functions"), [], {})
+        key0 = z3.Const("key_before", KEY); V = SArr((N,), lambda idx: V0(toz3(idx[0])))
+        s.attrs.update({"key": key0, "batch_order": None, "config": Obj("cfg", {"shuffle_states": shuffle}, label="config"), "values": V, "batched_states": prepared(Pb, dims),
+                        "_convergence_test_fn": I.getattr(s, "_get_span" if test == "span" else "_get_max_diff")})
+        REG_I[0] = I
+        REGISTRY[f"{SA}._update_values"].requires = req_update
+        return Ctx(self=s, _args=[], dims=dims, gamma=gamma, shuffle=shuffle, key0=key0, I=I, V=V, test=test)
+    return setup
+def post_sa_step_values(c, q):
+    i = z3.Int("i!st"); q.hyps += [i >= 0, i < N]
+    return z3.And(toz3(c.result[0].shape[0]) == N, toz3(c.result[0].get((i,))) == toz3(gs_result(c).get((i,))))
+def post_sa_step_measure(c, q):
+    new = gs_result(c); f = lambda i: toz3(new.get((i,))) - V0(i)
+    return toz3(c.result[1]) == (span_of if c.test == "span" else maxdiff_of)(f, N)
+contract(f"{SA}._iteration_step", scenarios=[(f"{'shuffled' if sh else 'fixed'}.{t}.", setup_sa_step(sh, t)) for sh in (False, True) for t in ("span", "max_diff")], modifies={"key"},
+         ensures={"new_values_are_the_gauss_seidel_sweep": post_sa_step_values, "measure": post_sa_step_measure, "key_advanced_once_iff_shuffling": post_key})
+
+# ---- solve: ghost trajectory SVAL(k+1) := sweep(SVAL(k), key after k sweeps) -- a definition; what is proved is the accounting and the stop rule
+SVALF = z3.Function("SVAL", I_, I_, R_); SMEAS = z3.Function("SMEAS", I_, R_); KEYAT = z3.Function("KEY_AT", I_, KEY)
+class STraj:
+    def __init__(self, test): self.test = test; self.points = []
+    def opaque(self, k): return SArr((N,), lambda idx, k=k: SVALF(toz3(k), toz3(idx[0])), tag=("straj", k))
+    def meas_def(self, k):
+        f = lambda i: SVALF(toz3(k) + 1, i) - SVALF(toz3(k), i)
+        return SMEAS(toz3(k) + 1) == (span_of if self.test == "span" else maxdiff_of)(f, N)
+def setup_sa_solve(shuffle, test):
+    def setup(I):
+        s, Pb, dims, gamma = mk_solver(I, "SemiAsyncValueIteration", "mdpax.solvers.semi_async_value_iteration")
+        I.call(I.getattr(s, "_setup_jax_functions"), [], {})
+        n0, maxit, f, dec = z3.Ints("n0 max_iterations checkpoint_frequency decimals"); thr = z3.Real("conv_threshold")
+        I.assume(z3.And(n0 >= 0, maxit >= 1, f >= 0, dec >= 0, gamma > 0, gamma <= 1))
+        tr = STraj(test)
+        s.attrs.update({"iteration": n0, "values": tr.opaque(n0), "key": KEYAT(n0), "batch_order": None, "batched_states": prepared(Pb, dims), "policy": None,
+                        "config": Obj("cfg", {"shuffle_states": shuffle}, label="config"), "conv_threshold": thr, "_convergence_desc": test, "convergence_format": FormatSpec(dec),
+                        "checkpoint_frequency": f, "checkpoint_manager": Obj("CheckpointManager", {}, label="CM"),
+                        "_convergence_test_fn": I.getattr(s, "_get_span" if test == "span" else "_get_max_diff")})
+        I.ghost["saves"] = []; REG_I[0] = I
+        # _iteration_step through its contract, in trajectory vocabulary: the sweep result from SVAL(k) is SVAL(k+1) by definition,
+        # the measure is test(new - old) by _iteration_step.post.measure, the key advances once iff shuffling (post.key_advanced_once_iff_shuffling)
+        def ret_step(c):
+            v = c["self"].attrs["values"]
+            if not (isinstance(v, SArr) and v.tag and v.tag[0] == "straj"): raise Unsupported("semi-async solve: values are not a trajectory point")
+            k = v.tag[1]; return (tr.opaque(toz3(k) + 1), SMEAS(toz3(k) + 1))
+        def eff_step(I_, c):
+            s_ = c["self"]
+            if shuffle: I_.note_write(s_, "key"); s_.attrs["key"] = I_.rand["K1"](s_.attrs["key"])
+        contract(f"{SA}._iteration_step", returns=ret_step, effects=eff_step, ensures={}, setup=None)
+        return Ctx(self=s, _args=[maxit], n0=n0, maxit=maxit, thr=thr, gamma=gamma, traj=tr, f=f, shuffle=shuffle, I=I)
+    return setup
+def havoc_sa(I, env, c, k):
+    s = c.self; it = c.n0 + k; tr = c.traj
+    s.attrs["iteration"] = it; s.attrs["values"] = tr.opaque(it); s.attrs["key"] = KEYAT(it)
+    env["conv"] = SMEAS(it); env["new_values"] = tr.opaque(it)
+    j = z3.Int("%jinv")
+    hy = [z3.ForAll([j], z3.Implies(z3.And(j > c.n0, j <= it), SMEAS(j) >= c.thr))]
+    if c.shuffle: hy.append(KEYAT(it + 1) == I.rand["K1"](KEYAT(it)))          # definition of the key sequence: one split per sweep
+    else: hy.append(KEYAT(it + 1) == KEYAT(it))
+    return hy
+def check_sa(c, env, k, q):
+    s = c.self; it = c.n0 + k; tr = c.traj
+    goals = {"iteration": toz3(s.attrs["iteration"]) == it,
+             "values": q.forall(0, N, lambda x: toz3(s.attrs["values"].get((x,))) == SVALF(it, x)),
+             "key_is_seed_key_after_that_many_splits": s.attrs["key"] == KEYAT(it),
+             "no_earlier_stop": q.forall(c.n0 + 1, it + 1, lambda j: SMEAS(j) >= c.thr, name="j")}
+    if not z3.is_true(z3.simplify(toz3(k) == 0)): goals["conv_is_measure"] = toz3(env["conv"]) == SMEAS(it)
+    return goals
+LoopSpec(f"{SA}.solve", 0, havoc_sa, check_sa, modifies={"self.iteration", "self.values", "self.key", "conv", "new_values"})
+contract(f"{SA}.solve", scenarios=[(f"{'shuffled' if sh else 'fixed'}.{t}.", setup_sa_solve(sh, t)) for sh in (False, True) for t in ("span", "max_diff")],
+    ensures={"values_are_that_many_sweeps": lambda c, q: q.forall(0, N, lambda x: toz3(c.self.attrs["values"].get((x,))) == SVALF(toz3(c.self.attrs["iteration"]), x)),
+             "stop_rule": lambda c, q: z3.And(toz3(c.self.attrs["iteration"]) - c.n0 <= c.maxit, toz3(c.self.attrs["iteration"]) - c.n0 >= 1,
+                            q.forall(c.n0 + 1, toz3(c.self.attrs["iteration"]), lambda j: SMEAS(j) >= c.thr, name="j"),
+                            z3.Or(SMEAS(toz3(c.self.attrs["iteration"])) < c.thr, toz3(c.self.attrs["iteration"]) == c.n0 + c.maxit)),
+             "policy_greedy": lambda c, q: q.forall(0, N, lambda x: c.self.attrs["policy"].vec((x,)) == AC(Greedy(c.self.attrs["values"], c.gamma, ST(x)))) if isinstance(c.self.attrs["policy"], SArr) else z3.BoolVal(False)})
+
+# ---- _setup_config: key = PRNGKey(random_seed) (reproducibility: the whole key sequence is a function of the seed)
+def setup_sa_cfg(I):
+    from contracts.spec_mdp import ProblemStub
+    mod = I.load_module("mdpax.solvers.semi_async_value_iteration").globals
+    seed = z3.Int("random_seed"); g, e = z3.Real("gamma"), z3.Real("epsilon")
+    cfg = Obj(mod["SemiAsyncValueIterationConfig"], dict(_target_="t", problem=None, gamma=g, epsilon=e, max_batch_size=z3.Int("mbs"), jax_double_precision=True, verbose=0, checkpoint_dir=None,
+              checkpoint_frequency=0, max_checkpoints=1, enable_async_checkpointing=True, convergence_test="span", shuffle_states=True, random_seed=seed), label="config")
+    P = ProblemStub(I); s = Obj(mod["SemiAsyncValueIteration"], {}, label="solver")
+    return Ctx(self=s, _args=[P.obj, cfg], seed=seed, I=I)
+contract(f"{SA}._setup_config", setup=setup_sa_cfg, ensures={"key_is_PRNGKey_of_seed": lambda c, q: c.self.attrs["key"] == c.I.rand["KEY0"](c.seed)})
+from pyvc.contract import LoopSpec
